@@ -136,7 +136,7 @@ PLANS = {
         'targets': T, 'deadline': {'quick': 300, 'thorough': 1800},
         'jobs': [
             {'name': 'stream', 'bin': 'exa', 'family': 'stream', 'shards': 16, 'args': {'quick': {}, 'thorough': {}}, 'resume': 'index',
-             'require_witnesses': {'*': ['plan_wouldblock', 'short_write', 'close_behind_last_reply_byte', 'pending_write_cb', 'tc_retried_over_tcp', 'tc_on_last_attempt_retried', 'tc_retried_over_tcp_in_dual_lookup', 'igntc_delivered', 'zero_length_datagram']}, 'min_outcomes': 2},
+             'require_witnesses': {'*': ['plan_wouldblock', 'plan_einprogress', 'short_write', 'close_behind_last_reply_byte', 'pending_write_cb', 'tc_retried_over_tcp', 'tc_on_last_attempt_retried', 'tc_retried_over_tcp_in_dual_lookup', 'igntc_delivered', 'zero_length_datagram']}, 'min_outcomes': 2},
         ],
     },
 }
